@@ -7,6 +7,7 @@ import (
 	"sync"
 
 	"github.com/khirono/go-nl"
+	"github.com/wmnsk/go-pfcp/ie"
 
 	"github.com/free5gc/go-gtp5gnl"
 	"github.com/free5gc/go-upf/internal/forwarder/buffnetlink"
@@ -24,6 +25,13 @@ import (
 func VerifNewFlowDesc(s string, swap bool) (nl.AttrList, error) {
 	g := &Gtp5g{log: logger.FwderLog.WithField(logger_util.FieldCategory, "Gtp5g")}
 	return g.newFlowDesc(s, swap)
+}
+
+// VerifNewPdi exposes newPdi, which decides from the PDI's Source Interface
+// whether the flow descriptions of its SDF filters are packed exchanged.
+func VerifNewPdi(i *ie.IE) (nl.AttrList, error) {
+	g := &Gtp5g{log: logger.FwderLog.WithField(logger_util.FieldCategory, "Gtp5g")}
+	return g.newPdi(i)
 }
 
 // VerifGtp5gOpts describes the simulated environment of a driver instance.
